@@ -823,6 +823,137 @@ func vfRunAuth(f []string) string {
 	return "req=" + vfHex(req) + " dgs=" + strings.Join(dgs, ",") + " reqma=" + reqma + " got=" + got
 }
 
+// ---------------------------------------------------------------- fail-over cases
+//   fail kind=<auth|acct> pw=<hex|-> n { secret=<hex> k recipe*k }*n
+// n servers, each with its own socket, radiusConn and secret; a server with no recipes is silent.  Additional
+// recipes: sk<j>:<code>:<attrs> / skma<j>:<code>:<attrs> = well-formed reply signed with the secret of server j.
+func vfRunFail(f []string) string {
+	kind := vfKV(f[1], "kind")
+	pw := vfKV(f[2], "pw")
+	n, _ := strconv.Atoi(f[3])
+	type srvT struct {
+		secret  []byte
+		recipes []string
+		sock    *net.UDPConn
+		req     []byte
+		dgs     []string
+		done    chan struct{}
+	}
+	srvs := make([]*srvT, n)
+	p := 4
+	for i := 0; i < n; i++ {
+		k, _ := strconv.Atoi(f[p+1])
+		srvs[i] = &srvT{secret: vfUnhex(vfKV(f[p], "secret")), recipes: f[p+2 : p+2+k], done: make(chan struct{})}
+		p += 2 + k
+	}
+	var rcs []*radiusConn
+	for _, sv := range srvs {
+		sock, err := net.ListenUDP("udp4", &net.UDPAddr{IP: net.IPv4(127, 0, 0, 1)})
+		if err != nil {
+			return "ENV listen " + err.Error()
+		}
+		sv.sock = sock
+		defer sock.Close()
+		to := vfExchangeTimeout
+		if len(sv.recipes) == 0 {
+			to = 300 * time.Millisecond // a silent server can only time out
+		}
+		rc := newRadiusConn("127.0.0.1", sock.LocalAddr().(*net.UDPAddr).Port, sv.secret, to, netbind.Binding{})
+		defer rc.close()
+		rcs = append(rcs, rc)
+	}
+	for _, sv := range srvs {
+		go func(sv *srvT) {
+			defer close(sv.done)
+			buf := make([]byte, 8192)
+			m, addr, err := sv.sock.ReadFromUDP(buf)
+			if err != nil {
+				return
+			}
+			sv.req = append([]byte(nil), buf[:m]...)
+			for k, r := range sv.recipes {
+				key := sv.secret
+				x := strings.SplitN(r, ":", 2)
+				for _, pre := range []string{"skma", "sk"} {
+					if strings.HasPrefix(x[0], pre) {
+						j, _ := strconv.Atoi(x[0][len(pre):])
+						key = srvs[j%len(srvs)].secret
+						if pre == "skma" {
+							r = "okma:" + x[1]
+						} else {
+							r = "ok:" + x[1]
+						}
+						break
+					}
+				}
+				d := vfBuildReply(r, sv.req, key, k)
+				sv.dgs = append(sv.dgs, vfHex(d))
+				sv.sock.WriteToUDP(d, addr)
+			}
+		}(sv)
+	}
+	cfg := &Config{Retries: 1, DeadThreshold: 1000, NASIdentifier: "bng", Timeout: vfExchangeTimeout}
+	prov := &Provider{cfg: cfg, logger: logger.Get(Namespace), authConns: rcs, acctConns: rcs, tier1Index: buildTier1Index(),
+		tier2Index: buildTier2Index(DefaultVendorID), radiusStats: internalaaa.NewRADIUSStats()}
+	got := "error"
+	func() {
+		defer func() {
+			if r := recover(); r != nil {
+				got = "panic"
+			}
+		}()
+		if kind == "acct" {
+			err := prov.StartAccounting(context.Background(), &auth.Session{AcctSessionID: "a1", Username: "alice", MAC: "02:00:00:00:00:01", AccessType: "ipoe"})
+			if err == nil {
+				got = "ok"
+			}
+			return
+		}
+		ar := &auth.AuthRequest{Username: "alice", MAC: "02:00:00:00:00:01", AccessType: "ipoe", Attributes: map[string]string{}}
+		if pw != "-" {
+			ar.Attributes[aaa.AttrPassword] = string(vfUnhex(pw))
+		}
+		r, e := prov.Authenticate(context.Background(), ar)
+		if e == nil && r != nil {
+			got = vfAuthResult(r)
+		}
+	}()
+	segs := []string{}
+	for i, sv := range srvs {
+		sv.sock.Close()
+		<-sv.done
+		d := "-"
+		if len(sv.dgs) > 0 {
+			d = strings.Join(sv.dgs, ",")
+		}
+		segs = append(segs, fmt.Sprintf("s%d:req=%s dgs=%s", i, vfHex(sv.req), d))
+	}
+	return strings.Join(segs, " ; ") + " ; got=" + got
+}
+
+func vfAuthResult(r *auth.AuthResponse) string {
+	if !r.Allowed {
+		return "denied"
+	}
+	keys := []string{}
+	for k := range r.Attributes {
+		keys = append(keys, k)
+	}
+	sort.Strings(keys)
+	kv := []string{}
+	for _, k := range keys {
+		v := r.Attributes[k]
+		if net.ParseIP(v) != nil || strings.Contains(v, "/") {
+			v = "?" // rendering of addresses and prefixes is not modelled
+		}
+		kv = append(kv, hex.EncodeToString([]byte(k))+"="+vfHex([]byte(v)))
+	}
+	if len(kv) == 0 {
+		kv = []string{"-"}
+	}
+	return "allowed:" + strings.Join(kv, ",")
+}
+
 // ---------------------------------------------------------------- literal tables
 
 // vfKind characterises a decoder by which probe lengths give a non-empty result and by the shape of the
@@ -910,6 +1041,8 @@ func vfRunCase(line string) (res string) {
 			done <- vfRunAuth(f)
 		case "lits":
 			done <- vfRunLits()
+		case "fail":
+			done <- vfRunFail(f)
 		default:
 			done <- "badcase"
 		}
